@@ -38,16 +38,18 @@ def sofiaH : Handler := fun j => do
   let useLog ← getBool j "log"
   let out ← getOut j
   let K : Ctx := ⟨be, t, [], []⟩
+  -- "via":"T" — wide table: concepts enumerated through the transposed table (`Fca.C15.checker_via_transpose`)
+  let viaT := match getStr j "via" with | .ok "T" => true | _ => false
   let model := sofia idTie useLog ms lmax K
   let (mj, mfails) := match model with
-    | .ok cs => (jPairs cs, failsC15 t ms lmax cs)
+    | .ok cs => (jPairs cs, if viaT then failsC15T t ms lmax cs else failsC15 t ms lmax cs)
     | .error e => (jErr e, ["model-error"])
   let exts := out.map (·.1)
   let pairs := out.filterMap fun c => c.2.map fun i => (c.1, i)
-  let ifails := failsPairs t pairs ++ failsExt t ms lmax exts
+  let ifails := failsPairs t pairs ++ (if viaT then failsExtT t ms lmax exts else failsExt t ms lmax exts)
   pure (Json.mkObj [("model", mj), ("model_fails", jStrs mfails), ("impl_fails", jStrs ifails),
     ("never_binds", Json.bool (neverBinds idTie ms lmax t)),
-    ("n_meet", Json.num (JsonNumber.fromNat (meeting t ms).length))])
+    ("n_meet", Json.num (JsonNumber.fromNat (if viaT then meetingT t ms else meeting t ms).length))])
 
 def getMatrix (j : Json) (k : String) : Except String (List (List Bool)) := do
   (← arr (← j.getObjVal? k)).mapM boolList
